@@ -163,7 +163,16 @@ def timeline_diff(a: dict, b: dict, tol: float = 1e-9, by_id: bool = False,
                        f"{[(s['kind'], s['ti'], s['tf']) for s in cb['slots']]}")
             continue
         for i, (sa, sb) in enumerate(zip(ca["slots"], cb["slots"])):
-            if (sa["kind"], sa["ti"], sa["tf"], sa["targets"]) != (sb["kind"], sb["ti"], sb["tf"], sb["targets"]):
+            ka, kb = sa["kind"], sb["kind"]
+            if ka != kb and {ka, kb} == {"delay", "ddelay"} and tol > 0:
+                # a 'detuned delay' whose constant detuning is zero to within the tolerance (e.g. an EOM off-detuning
+                # of -6e-16 from a light-shift sum that cancels) behaves as the plain delay on the other side
+                dd = sa if ka == "ddelay" else sb
+                if float(np.max(np.abs(pulse_info(dd["pulse"])[2]), initial=0)) <= tol:
+                    ka = kb = "delay"
+                    if (sa["ti"], sa["tf"], sa["targets"]) == (sb["ti"], sb["tf"], sb["targets"]):
+                        continue
+            if (ka, sa["ti"], sa["tf"], sa["targets"]) != (kb, sb["ti"], sb["tf"], sb["targets"]):
                 out.append(f"{n}[{i}]: {(sa['kind'], sa['ti'], sa['tf'], sa['targets'])} vs "
                            f"{(sb['kind'], sb['ti'], sb['tf'], sb['targets'])}")
                 break
